@@ -27,6 +27,10 @@ fn decoy(i: usize) -> String {
 }
 
 fn gen_real(rng: &mut Rng, zero_heavy: bool) -> String {
+    if zero_heavy && rng.chance(1, 8) {
+        // not-a-number literals are legal REAL text too (NaN != NaN, so every one of them is its own value)
+        return rng.pick(&["NaN", "-NaN", "nan", "inf"]).to_string();
+    }
     if zero_heavy && rng.chance(2, 3) {
         rng.pick(&["0.0", "-0.0", "0", "-0", "0.00"]).to_string()
     } else {
